@@ -246,7 +246,15 @@ func (s *Solver) Check(as []*Term, wantModel bool) (Result, Model) {
 		}
 	}
 	if useCVC5 && !s.forceCVC5 {
-		return s.checkOneShot(live, wantModel, key)
+		return s.checkOneShot(live, wantModel, key, "fp")
+	}
+	hasDiv := false
+	if !s.forceCVC5 {
+		for _, a := range live {
+			if a.HasDiv {
+				hasDiv = true
+			}
+		}
 	}
 	var p *SolverProc
 	var err error
@@ -270,6 +278,9 @@ func (s *Solver) Check(as []*Term, wantModel bool) (Result, Model) {
 	p.define(live)
 	var sb strings.Builder
 	sb.WriteString("(push 1)\n")
+	if hasDiv && p.name == "z3" {
+		sb.WriteString("(set-option :timeout 1500)\n") // quick attempt; hard ones go to the portfolio
+	}
 	for _, a := range live {
 		fmt.Fprintf(&sb, "(assert %s)\n", a.ref())
 	}
@@ -334,6 +345,13 @@ func (s *Solver) Check(as []*Term, wantModel bool) (Result, Model) {
 		}
 	}
 	p.send("(pop 1)\n")
+	if hasDiv && p.name == "z3" {
+		p.send(fmt.Sprintf("(set-option :timeout %d)\n", s.timeoutMs))
+		if res == Unknown {
+			s.Stats.WallZ3 += time.Since(t0)
+			return s.checkOneShot(live, wantModel, key, "div")
+		}
+	}
 	d := time.Since(t0)
 	if useCVC5 {
 		s.Stats.WallCVC5 += d
@@ -507,7 +525,7 @@ func parseModel(txt string, vars []*Term, m Model) {
 }
 
 // checkOneShot runs cvc5 non-incrementally on a self-contained script (much faster for floating point).
-func (s *Solver) checkOneShot(live []*Term, wantModel bool, key string) (Result, Model) {
+func (s *Solver) checkOneShot(live []*Term, wantModel bool, key string, kind string) (Result, Model) {
 	t0 := time.Now()
 	tmp := &SolverProc{name: "cvc5-oneshot", defined: map[int]bool{}, ufs: map[string]bool{}}
 	var sb strings.Builder
@@ -539,8 +557,12 @@ func (s *Solver) checkOneShot(live []*Term, wantModel bool, key string) (Result,
 	}
 	ch := make(chan ans, 2)
 	script := sb.String()
+	cvc5args := []string{"--produce-models", fmt.Sprintf("--tlimit=%d", s.timeoutMs), "--fp-exp", "--lang=smt2"}
+	if kind == "div" {
+		cvc5args = []string{"--produce-models", fmt.Sprintf("--tlimit=%d", s.timeoutMs), "--solve-bv-as-int=sum", "--lang=smt2"}
+	}
 	cmds := []*exec.Cmd{
-		exec.Command("cvc5", "--produce-models", fmt.Sprintf("--tlimit=%d", s.timeoutMs), "--fp-exp", "--lang=smt2"),
+		exec.Command("cvc5", cvc5args...),
 		exec.Command(s.z3bin, "-in", fmt.Sprintf("-T:%d", s.timeoutMs/1000+1)),
 	}
 	for i, c := range cmds {
